@@ -135,6 +135,10 @@ pub struct HistOpts {
     pub universe_probe: bool,
     /// generate calls that remove the root itself (only C13 wants them)
     pub root_removal: bool,
+    /// overlays keep their whole state in the layers: a second OverlayFS instance built over the
+    /// same layers before the history, and a fresh one built after every step, must show the
+    /// same tree as the instance the history runs on
+    pub twin: bool,
 }
 
 pub fn removes_root(op: &Op) -> bool {
@@ -154,6 +158,7 @@ impl HistOpts {
             lowers: false,
             universe_probe: true,
             root_removal: false,
+            twin: false,
         }
     }
 }
@@ -185,6 +190,8 @@ pub struct Summary {
     pub resyncs: usize,
     /// pre-populated directories whose name is a (shadowed) file in a deeper layer
     pub shadowed_file_dirs: usize,
+    /// snapshots taken through a second overlay instance
+    pub twin_views: usize,
 }
 
 fn levels(t: &Tree) -> usize {
@@ -409,6 +416,7 @@ pub fn run_plan(
         }
     };
     let root = built.root.clone();
+    let twin0: Option<VfsPath> = if opts.twin && matches!(plan.cfg, Cfg::Ovl(_) | Cfg::OvlSub(..)) && !built.layers.is_empty() { Some(VfsPath::new(vfs::OverlayFS::new(&built.layers))) } else { None };
     let mut trace: Vec<String> = vec![];
     let mut sum = Summary::default();
     sum.prefix_pair_present = pool_has_prefix_pair(&pool);
@@ -603,6 +611,16 @@ pub fn run_plan(
             }
             if !snap.problems.is_empty() {
                 return Err(fail(case, &trace, step, format!("after {}: observable state inconsistent: {:?}", op.render(), &snap.problems[..snap.problems.len().min(4)])));
+            }
+            if let Some(t0) = &twin0 {
+                let fresh = VfsPath::new(vfs::OverlayFS::new(&built.layers));
+                for (who, t) in [("built before the history", t0), ("built just now", &fresh)] {
+                    let ts = snapshot(t);
+                    if ts.tree != snap.tree {
+                        return Err(fail(case, &trace, step, format!("after {}: a second OverlayFS instance over the same layers ({}) shows a different tree: {:?}", op.render(), who, diff_trees(&snap.tree, &ts.tree))));
+                    }
+                }
+                sum.twin_views += 2;
             }
             let expected_tree = match &pred.effect {
                 Effect::Same => Some(model.clone()),
